@@ -2,13 +2,14 @@ pub mod c01;
 pub mod c02;
 pub mod c03;
 pub mod c04;
+pub mod c06;
 pub mod c13;
 pub mod c14;
 
 use crate::util::Oracle;
 
 pub fn oracle_by_name(name: &str) -> Option<Oracle> {
-	let all: &[&[(&str, Oracle)]] = &[c01::ORACLES, c02::ORACLES, c04::ORACLES, c14::ORACLES];
+	let all: &[&[(&str, Oracle)]] = &[c01::ORACLES, c02::ORACLES, c04::ORACLES, c06::ORACLES, c14::ORACLES];
 	for set in all {
 		for (n, f) in set.iter() {
 			if *n == name {
@@ -26,6 +27,7 @@ pub fn run(prop: &str) -> bool {
 		"C03" => c03::run(),
 		"C04" => c04::run(),
 		"C14" => c14::run(),
+		"C06" => c06::run(),
 		"C13" => c13::run(),
 		_ => return false,
 	}
